@@ -316,8 +316,8 @@ func (df *DataFile) readToBuf(blockID uint32, offset uint32, buf *bytebufferpool
 			return err
 		}
 
-		// 对当前 chunk 解码
-		data, chunkType, err := DecodeChunk(block[offset:])
+		// 对当前 chunk 解码, 仅允许访问实际读取到的数据
+		data, chunkType, err := DecodeChunk(block[offset:size])
 		if err != nil {
 			return err
 		}
@@ -409,7 +409,7 @@ func (reader *DataReader) next() ([]byte, *DataPos, error) {
 		}
 
 		// 对当前 chunk 解码
-		data, chunkType, err := DecodeChunk(reader.blockBuf[reader.offset:])
+		data, chunkType, err := DecodeChunk(reader.blockBuf[reader.offset:size])
 		if err != nil {
 			return nil, nil, err
 		}
